@@ -556,6 +556,9 @@ class Gen:
             "TRAIT ID REF Bump", 0, "thread/share-ref: two threads allocate from one arena through &Bump", "h1t")
         add("h1t", False, "    let b = Bump::new();\n    std::thread::scope(|s| {\n        s.spawn(move || { let b = b; touch(b.alloc(1u32)); });\n    });\n",
             "TRAIT ID S Bump 1 1", 0, "thread/move-arena: an idle arena moved into another thread", "h1m")
+        for al in (2, 8, 16):
+            add(f"h8t{al}", False, f"    let b: Bump<{al}> = Bump::with_min_align();\n    touch(b.alloc(1u32));\n    let t = std::thread::spawn(move || {{ let mut b = b; touch(b.alloc(2u64)); b.reset(); }});\n    t.join().unwrap();\n",
+                "TRAIT ID S Bump 1 1", 0, f"thread/move-arena-min-align-{al}: an idle Bump<{al}> moved into another thread, used and dropped there", "h1m")
         add("h2m", True, "    let b = std::sync::Arc::new(Bump::new());\n    let b2 = b.clone();\n    let t = std::thread::spawn(move || { touch(b2.alloc(1u32)); });\n    touch(b.alloc(2u32));\n    t.join().unwrap();\n",
             "TRAIT ID S Bump 1 1", 1, "thread/arc-share: Arc<Bump> in two threads needs Bump: Sync", "h2t")
         add("h2t", False, "    let b = std::sync::Arc::new(std::sync::Mutex::new(Bump::new()));\n    let b2 = b.clone();\n    let t = std::thread::spawn(move || { touch(b2.lock().unwrap().alloc(1u32)); });\n    touch(b.lock().unwrap().alloc(2u32));\n    t.join().unwrap();\n",
